@@ -1,6 +1,7 @@
 package rules
 
 import (
+	"path/filepath"
 	"regexp"
 	"sort"
 	"strconv"
@@ -44,7 +45,7 @@ func (f *FC) tinyHelpers() map[string]tinyDef {
 			continue
 		}
 		bad := false
-		for _, k := range []string{"seq[", "match(", "if(", `\x`, "opaque", "for(", "range(", "never", "panic", "Panic", "<msg>", "_)", "(_", " _,", "()"} {
+		for _, k := range []string{"seq[", "match(", "if(", `\x`, "opaque", "for(", "range(", "never", "panic", "Panic", "<msg>", "_)", "(_", " _,"} {
 			if strings.Contains(s, k) {
 				bad = true
 			}
@@ -62,9 +63,30 @@ func (f *FC) tinyHelpers() map[string]tinyDef {
 		if !ok {
 			continue
 		}
+		if !f.tinyEligible(fn) {
+			continue
+		}
 		f.tiny[fn.Name] = tinyDef{len(fn.Params), s}
 	}
 	return f.tiny
+}
+
+// tinyNoFilter is set while the reviewed tables are regenerated.
+var tinyNoFilter bool
+
+// tinyEligible: a reviewed function is expanded only if it was a tiny helper when the forms were reviewed.  A
+// function that BECOMES small (parseTypeList rewritten as one combinator call) is judged at its own pin or digest;
+// expanding it would change the canonical form of every caller, although no caller was edited.  Helpers added
+// since the review are always eligible.
+func (f *FC) tinyEligible(fn *ir.Func) bool {
+	if tinyNoFilter {
+		return true
+	}
+	base, has := baselineFuncs[filepath.Base(f.M.Dir)]
+	if !has || !base[fn.Name] || filepath.Base(f.M.Dir) != "fc" {
+		return true
+	}
+	return c01ReviewedTiny[fn.Name]
 }
 
 // expandTiny replaces every full application name(a0, …) of a tiny helper by its body with the arguments put in.
@@ -259,6 +281,9 @@ func (f *FC) tinyTemplates() map[string]tinyDef {
 			}
 		}
 		if bad || strings.Contains(t, fn.Name+"(") {
+			continue
+		}
+		if !f.tinyEligible(fn) {
 			continue
 		}
 		f.tinyTpl[fn.Name] = tinyDef{len(fn.Params), t}
